@@ -12,6 +12,7 @@ import (
 	"github.com/lianxiangcloud/linkchain/libs/common"
 	"github.com/lianxiangcloud/linkchain/libs/crypto"
 	lktypes "github.com/lianxiangcloud/linkchain/libs/cryptonote/types"
+	"github.com/lianxiangcloud/linkchain/libs/ser"
 	"github.com/lianxiangcloud/linkchain/state"
 	"github.com/lianxiangcloud/linkchain/types"
 	"pgregory.net/rapid"
@@ -670,3 +671,67 @@ func (s *Sim) UniverseOutside() []common.Address {
 
 // Close releases the node.
 func (s *Sim) Close() { s.W.Close() }
+
+// SenderOf returns the account sender and nonce of an account-based transaction (ok == false for pure confidential spends).
+func SenderOf(tx types.Tx) (common.Address, uint64, bool) {
+	switch v := tx.(type) {
+	case *types.Transaction:
+		f, _ := v.From()
+		return f, v.Nonce(), true
+	case *types.TokenTransaction:
+		f, _ := v.From()
+		return f, v.Nonce(), true
+	case *types.UTXOTransaction:
+		// (tx.Nonce() is a cache that only CheckBasic fills; read the input itself)
+		for _, in := range v.Inputs {
+			if ai, ok := in.(*types.AccountInput); ok {
+				f, _ := v.From()
+				return f, ai.Nonce, true
+			}
+		}
+	}
+	return common.EmptyAddress, 0, false
+}
+
+// Fresh returns a transaction as a peer receives it: decoded from its wire encoding, all caches cold.
+func Fresh(tx types.Tx) types.Tx {
+	b, err := ser.EncodeToBytesWithType(tx)
+	if err != nil {
+		panic(err)
+	}
+	var n types.Tx
+	if err := ser.DecodeBytesWithType(b, &n); err != nil {
+		panic(err)
+	}
+	return n
+}
+
+// Restart throws the node away and opens a new one over the same databases (a clean restart).
+func (s *Sim) Restart() error {
+	s.W.Mempool.Stop()
+	w, err := world.Open(s.Spec, s.W.DBs)
+	if err != nil {
+		return err
+	}
+	s.W = w
+	return nil
+}
+
+// InjectAccepted builds a block with exactly txs (no mempool), fills its header by executing it on the proposer
+// path, and reports whether the validator path of the same node accepts a re-decoded copy.
+func (s *Sim) InjectAccepted(txs types.Txs) (accepted bool, note string) {
+	blk := s.W.BlockOf(txs, world.GenesisTime+uint64(10*(s.W.Height()+1)), cfg.ContractFoundationAddr)
+	var pan interface{}
+	func() {
+		defer func() { pan = recover() }()
+		s.W.App.PreRunBlock(blk)
+	}()
+	if pan != nil {
+		return false, fmt.Sprintf("does not execute even on the proposer path: %v", pan)
+	}
+	cp, err := world.CopyBlock(blk)
+	if err != nil {
+		return false, "block does not decode: " + err.Error()
+	}
+	return s.W.Check(cp), "validator path (CheckBlock)"
+}
